@@ -130,7 +130,8 @@ def check(ctx, rep, cases):
         rep.sample({'frontend': c['frontend'], 'framer': c['framer'], 'hosted': hosted, 'single': c['single'], 'broadcast': c['broadcast'],
                     'addressed': [s['uid'] for s in c['steps']][:8]}, cap=6)
         serverlib.compare(rep, case, real, a, 'unit routing vs Server.callback')
-        if any(escs):
+        # (a `del context[u]` step is the application's own call: what it raises, e.g. for an id outside 0..247, is not the front-end's)
+        if any(e for e, st in zip(escs, c['steps']) if st.get('del') is None):
             rep.violation('an exception escaped the front-end while serving well-formed requests', case, escaped=escs)
             continue
         # (b), (c): per-step non-interference on the real dumps
@@ -139,7 +140,7 @@ def check(ctx, rep, cases):
         hosted = list(hosted)
         for i, (st, o, now) in enumerate(zip(c['steps'], outs, per_step)):
             if st.get('del') is not None:
-                if st['del'] in hosted:
+                if st['del'] in hosted and escs[i] is None:      # the deletion took effect (ids outside 0..247 cannot be deleted)
                     hosted.remove(st['del'])
                 prev = [x for x in now]
                 continue
@@ -179,7 +180,7 @@ def check(ctx, rep, cases):
         if bad:
             continue
         # (d) projection oracle, one `exec` query per hosted unit
-        deleted = {st['del'] for st in c['steps'] if st.get('del') is not None}
+        deleted = {st['del'] for st, e in zip(c['steps'], escs) if st.get('del') is not None and e is None}
         left = [x for x in c['units'] if x[0] not in deleted]
         for k, (u, desc) in enumerate(left):
             if any(b['kind'] == 'broken' for b in desc['blocks']):
